@@ -94,6 +94,13 @@ theorem step_refines (s : Stk) (op : Op) :
     · subst h
       rcases List.eq_nil_or_concat r with h | ⟨r', q, h⟩ <;> subst h <;>
         simp [step, specStep, vecPop, abs]
+  | cSplit =>
+    rcases List.eq_nil_or_concat s with h | ⟨r, p, h⟩
+    · subst h; simp [step, specStep, vecPop, abs]
+    · subst h
+      cases hs : splitPop p with
+      | none => simp [step, specStep, vecPop, abs, hs]
+      | some lu => obtain ⟨l, u⟩ := lu; simp [step, specStep, vecPop, abs, hs]
 
 /-- `k`-fold application. -/
 def iter {α : Type} (f : α → α) : Nat → α → α
